@@ -594,17 +594,28 @@ func (h *hist) judgeEnvelope(tag string, c *conv, next *types.WorkObject) {
 			det := fmt.Sprintf("%s: slip %d bp (field %d), amount %s", tag, c.SlipEff, c.SlipField, c.Amount)
 			// the floor (10 %% of the original) can convert to zero units of the other ledger: the code then refunds instead of crediting zero
 			tenPct := new(big.Int).Div(new(big.Int).Mul(c.Amount, big.NewInt(10)), big.NewInt(100))
-			var fl *big.Int
-			if c.Dir == dirQuaiToQi {
-				fl = misc.QuaiToQi(p, p.ExchangeRate(), p.MinerDifficulty(), tenPct)
+			// (judged at the rate of this prime header and, when known, at the rate the protocol applied, carried by the next one)
+			zero := false
+			rates := []*big.Int{p.ExchangeRate()}
+			if next != nil {
+				rates = append(rates, next.ExchangeRate())
+			}
+			for _, R := range rates {
+				var fl *big.Int
+				if c.Dir == dirQuaiToQi {
+					fl = misc.QuaiToQi(p, R, p.MinerDifficulty(), tenPct)
+				} else {
+					fl = misc.QiToQuai(p, R, p.MinerDifficulty(), tenPct)
+				}
+				zero = zero || fl.Sign() == 0
+			}
+			if zero {
+				// the credit would be 0 units: the realised slippage is 100 %, above every admissible bound, and the
+				// sender gets exactly the original amount back - an outcome the statement allows (not a deviation)
+				m.Eval(fmt.Sprintf("envelope:%s:reverted-because-floor-converts-to-zero-units:%s", c.Dir, side), c.Tx.Hash().Hex())
 			} else {
-				fl = misc.QiToQuai(p, p.ExchangeRate(), p.MinerDifficulty(), tenPct)
+				m.Violation(sig, det, h.convWit(c))
 			}
-			if fl.Sign() == 0 {
-				sig += ":floor-converts-to-zero-units"
-				det += fmt.Sprintf("; 10%% of the amount (%s) converts to 0 at the prime header's rate %s and miner difficulty %s", tenPct, p.ExchangeRate(), p.MinerDifficulty())
-			}
-			m.Violation(sig, det, h.convWit(c))
 		}
 		m.Eval(fmt.Sprintf("envelope:%s:reverted:%s:%s", c.Dir, c.AmountClass, side), c.Tx.Hash().Hex())
 		return
